@@ -156,7 +156,7 @@ def c_movelist_capacity(site, fx):
 
 
 def c_pv_capacity(site, fx):
-    if not (in_fn(site, "PrincipalVariation::push", "PrincipalVariation::append") and site.family in ("capacity", "unwrap")):
+    if not ("principal_variation::PrincipalVariation::" in bn(site) and site.family in ("capacity", "unwrap")):
         return False
     # checked part: the line's capacity (evaluated) is at least the maximum search depth
     try:
@@ -269,10 +269,13 @@ def c_best_move_lower(site, fx):
 
 def c_aspiration_prev_eval(site, fx):
     # eval.unwrap() only for depth >= ASPIRATION_MIN_DEPTH (>= 2): iterative deepening passes Some(eval) after the first completed iteration
-    if not (site.family == "unwrap" and in_fn(site, "aspiration::aspiration_search")):
+    if not (site.family == "unwrap" and "engine::search::aspiration::" in bn(site)):
+        return False
+    dp = next((i for i in range(1, site.body.arg_count + 1) if site.body.local_name(i) == "depth"), None)
+    if dp is None:
         return False
     ctx = iv.Ctx(site.body, site.bb, fx)
-    lo, hi = iv.guard_bounds(ctx, 2)
+    lo, hi = iv.guard_bounds(ctx, dp)
     return lo is not None and lo >= 2
 
 
@@ -476,7 +479,61 @@ def c_plies_assumption(site, fx):
     return False
 
 
+def _is_min_with(e, a):
+    e = deep_strip(e)
+    return isinstance(e, tuple) and e and e[0] == "call" and str(e[1]).split("::")[-1] == "min" and len(e[2]) == 2 and \
+        any(show(deep_strip(x)) == show(deep_strip(a)) for x in e[2])
+
+
+def c_sub_of_min(site, fx):
+    # a - min(b, a): the subtrahend cannot exceed the minuend
+    return site.family == "arith" and site.what == "Sub" and len(site.ops) == 2 and _is_min_with(site.ops[1], site.ops[0])
+
+
+def c_tail_slice(site, fx):
+    # v[v.len() - w ..] with w = min(_, v.len()) (or a saturating / checked difference): the start never exceeds the length
+    if not (site.family == "index" and len(site.ops) == 2):
+        return False
+    rng = deep_strip(site.ops[1])
+    if not (isinstance(rng, tuple) and rng and rng[0] == "agg" and str(rng[1]).endswith("RangeFrom::RangeFrom") and rng[2]):
+        return False
+    st = deep_strip(rng[2][0])
+    if isinstance(st, tuple) and st and st[0] == "field" and st[2] == "0":
+        st = deep_strip(st[1])  # `.0` of a checked subtraction
+    base = deep_strip(site.ops[0])
+    while isinstance(base, tuple) and base and base[0] in ("ref", "deref"):
+        base = deep_strip(base[1])
+
+    def is_len_of_base(x):
+        x = deep_strip(x)
+        if not (isinstance(x, tuple) and x and x[0] == "call" and str(x[1]).split("::")[-1] == "len" and x[2]):
+            return False
+        y = deep_strip(x[2][0])
+        while isinstance(y, tuple) and y and y[0] in ("ref", "deref"):
+            y = deep_strip(y[1])
+        return show(y) == show(base)
+    if isinstance(st, tuple) and st and st[0] == "binop" and st[1].startswith("Sub") and is_len_of_base(st[2]):
+        return True  # len - w with w >= 0: at most len (the subtraction itself is a separate site)
+    if isinstance(st, tuple) and st and st[0] == "call" and str(st[1]).split("::")[-1] in ("saturating_sub",) and is_len_of_base(st[2][0]):
+        return True
+    return False
+
+
+def c_chunk_size_const(site, fx):
+    # chunks / chunks_mut / windows .. panic only for a size of zero: a positive constant size never does
+    if not (site.family == "index" and site.what in ("chunks", "chunks_mut", "chunks_exact", "chunks_exact_mut", "rchunks", "rchunks_mut", "windows") and len(site.ops) == 2):
+        return False
+    d = deep_strip(site.ops[1])
+    if isinstance(d, tuple) and d and d[0] == "constpath":
+        cv = [v for k, v in fx.consts.items() if norm(k) == d[1]]
+        return bool(cv) and isinstance(cv[0].get("int"), int) and cv[0]["int"] > 0
+    return isinstance(d, tuple) and d and d[0] == "const" and isinstance(d[1], int) and not isinstance(d[1], bool) and d[1] > 0
+
+
 CLASSES = [
+    ("chunk-size-const", c_chunk_size_const, "chunk / window size is a positive constant", "checked"),
+    ("sub-of-min", c_sub_of_min, "a - min(b, a) cannot underflow", "checked"),
+    ("tail-slice", c_tail_slice, "v[v.len() - w ..]: the start is at most the length", "checked"),
     ("opimpl-forwarded", c_opimpl, "operator impl of a score type: the obligation is carried by every call site (evalop sites)", "checked"),
     ("wide-counter", c_wide_counter, "increment of a >=32-bit counter by a small constant: not exhaustible by any reachable input", "belief"),
     ("plies-undo", c_plies_undo, "plies -= 1 mirrors the += 1 of the matching make (C02-HIST)", "belief"),
